@@ -25,7 +25,7 @@ def section(text, *heads):
 
 for sid in sorted(os.listdir(SEEDED)):
     d = os.path.join(SEEDED, sid)
-    if not os.path.isdir(d):
+    if not os.path.isdir(d) or not re.match(r"C\d+_m\d+$", sid):
         continue
     readme = open(os.path.join(d, "README.agent.md")).read()
     title = readme.splitlines()[0].lstrip("# ").strip()
@@ -49,7 +49,7 @@ for sid in sorted(os.listdir(SEEDED)):
 rows = ["| seeded change | what it breaks (short) | caught by | missed by | demonstration |", "|---|---|---|---|---|"]
 for sid in sorted(os.listdir(SEEDED)):
     dd = os.path.join(SEEDED, sid)
-    if not os.path.isdir(dd):
+    if not os.path.isdir(dd) or not re.match(r"C\d+_m\d+$", sid):
         continue
     m = json.load(open(os.path.join(dd, "meta.json")))
     t = re.sub(r"^[Cc]\d+\s*[/_]?\s*m\d\s*-\s*", "", m["title"])
